@@ -262,10 +262,11 @@ class Register:
             return NamedQubit(name, self, key)
 
     def __len__(self):
-        return self.size
+        return int(self.size)
 
     def __iter__(self):
-        for key in range(self.size):
+        # The size may be a let constant
+        for key in range(int(self.size)):
             yield self[key]
 
 
